@@ -56,6 +56,10 @@ def main():
         row = matrix.setdefault(sid, {})
         row['_demo'] = [res.get('demo_clean_exit'), res.get('demo_patched_exit')]
         row['_tests'] = res.get('tests')
+        if 'checks' not in res:
+            row['_error'] = str(res.get('error') or res)[:300]
+            print(sid, 'NOT RUN', row['_error'])
+            continue
         for k, v in res['checks'].items():
             row[k] = v['exit']
             if v['exit'] == 1 and v['first']:
